@@ -574,3 +574,65 @@ pub proof fn lemma_pack_order_free(o: DsV, n1: DsV, p1: Seq<char>, k1: Seq<Seq<c
     lemma_pack_ranges(t2, j2);
     assert(n1.co[k1[j1]].1 == obj_off(t1, j1)); assert(n2.co[k2[j2]].1 == obj_off(t2, j2));
 }
+
+// ---------------------------------------------------------------- Revision as seen from datastorage.rs
+// (contracts of these five methods are PROVED in unit `rev`; here they are assumed with the same meaning)
+#[verifier::external_body]
+pub struct Revision { r: () }
+impl Revision {
+    pub uninterp spec fn rdigest(&self) -> Seq<char>;
+    pub uninterp spec fn k_empty(&self) -> bool;
+    pub uninterp spec fn k_deleted(&self) -> bool;
+    pub uninterp spec fn k_resolved(&self) -> bool;
+    pub uninterp spec fn k_charcode(&self) -> bool;
+    /// empty / deleted / resolved / charcode revisions carry no stored object
+    pub open spec fn special(&self) -> bool { self.k_empty() || self.k_deleted() || self.k_resolved() || self.k_charcode() }
+    #[verifier::external_body] pub fn digest(&self) -> (r: &String) ensures r@ == self.rdigest() { unimplemented!() }
+    #[verifier::external_body] pub fn is_empty(&self) -> (r: bool) ensures r == self.k_empty() { unimplemented!() }
+    #[verifier::external_body] pub fn is_deleted(&self) -> (r: bool) ensures r == self.k_deleted() { unimplemented!() }
+    #[verifier::external_body] pub fn is_resolved(&self) -> (r: bool) ensures r == self.k_resolved() { unimplemented!() }
+    #[verifier::external_body] pub fn is_charcode(&self) -> (r: bool) ensures r == self.k_charcode() { unimplemented!() }
+}
+// ---------------------------------------------------------------- LRU cache as an invariant-carrying shim (R6 + lru crate):
+// its CONTENT is arbitrary (any capacity >= 1, any eviction order); `get` can only return what some earlier `put` stored
+impl LruShim {
+    pub uninterp spec fn cview(&self) -> Map<Seq<char>, JMap>;
+    #[verifier::external_body]
+    pub fn get(&self, k: &String) -> (r: Option<&JMap>)
+        ensures match r { Some(v) => self.cview().contains_key(k@) && *v == self.cview()[k@], None => true },
+    { unimplemented!() }
+    /// after a put the cache holds a SUBSET of (old content + the new entry): eviction is unconstrained
+    #[verifier::external_body]
+    pub fn put(&mut self, k: String, v: JMap)
+        ensures forall|x: Seq<char>| #[trigger] final(self).cview().contains_key(x) ==>
+            (x == k@ && final(self).cview()[x] == v) || (old(self).cview().contains_key(x) && final(self).cview()[x] == old(self).cview()[x]),
+    { unimplemented!() }
+}
+/// every cached object is the object form of a value that is staged or was read (hash-checked) under that digest
+pub open spec fn cache_inv(d: DataStorage) -> bool {
+    forall|k: Seq<char>| #[trigger] d.cache.cview().contains_key(k) ==> backed(d, k, d.cache.cview()[k])
+}
+/// object `o` is what the storage holds for `digest`: staged under it, or parsed from bytes that hash to it
+pub open spec fn backed(d: DataStorage, digest: Seq<char>, o: JMap) -> bool {
+    ||| (smap(d.stage).contains_key(digest) && as_obj(smap(d.stage)[digest]) == Some(jmap(o)))
+    ||| (smap(d.committed_objects).contains_key(digest) && exists|bytes: Seq<u8>, v: Value| sha_hex(bytes) == digest && #[trigger] parses_to(bytes, v) && as_obj(v) == Some(jmap(o)))
+}
+#[verifier::external_body]
+pub fn vx_jmap_clone(m: &JMap) -> (r: JMap) ensures r == *m { unimplemented!() }
+/// `Value::from(map)` / `obj.clone().into()`
+#[verifier::external_body]
+pub fn vx_value_from_map_ref(m: &JMap) -> (v: Value) ensures as_obj(v) == Some(jmap(*m)) { unimplemented!() }
+/// the fixed objects of special revisions: `json!({})`, `json!({"_deleted":true})`, `json!({"_resolved":true})`, `{"#": charcode}`
+#[verifier::external_body]
+pub fn vx_special_object(kind: u8, rev: &Revision) -> (r: JMap) { unimplemented!() }
+/// `value.as_object().expect("expecting_an_object")`: a panic unless the value is an object
+#[verifier::external_body]
+pub fn vx_expect_object(v: &Value) -> (m: &JMap)
+    requires as_obj(*v).is_some(),
+    ensures as_obj(*v) == Some(jmap(*m)),
+{ unimplemented!() }
+/// everything the storage can return for a digest is a JSON object (write_object stages objects; packs index `{..}` ranges only)
+pub open spec fn objects_only(d: DataStorage, digest: Seq<char>) -> bool {
+    &&& smap(d.stage).contains_key(digest) ==> as_obj(smap(d.stage)[digest]).is_some()
+    &&& forall|bytes: Seq<u8>, v: Value| sha_hex(bytes) == digest && #[trigger] parses_to(bytes, v) ==> as_obj(v).is_some()
+}
